@@ -286,61 +286,91 @@ def r6_exit_table(R, sh: SolverShape, linker: bool = False) -> None:
         if s.node.id in (fs.id, fi_.id):
             R.check(text(s.index) == 't', sh.q, f'final-index:{stmt_key(s.node.ast)}', 'final stores address position t',
                     f'final store addresses `{text(s.index)}`, not `t`', where=sh.where(s.node))
-    # (c) status value: reaching definitions
+    # (c) status value, path-sensitively: which members can the final store receive, and under which loop outcome
     sval = fs.ast.value
-    if not (isinstance(sval, ast.Name)):
-        raise Unsupported(f'{sh.q}: final status store value is not a local name: `{text(sval)}`')
-    defs = sh.lf.values_reaching(fs.id, sval.id)
+    fl = sh.flags
     conv, _ = sh.convergence_node()
-    members = {}
-    for (site, v) in defs:
-        m = enum_value_ref(v) if v is not None else None
-        node = sh.cfg.nodes[site] if site != PARAM else None
-        if m is None:
-            R.violation(sh.q, f'status-def:{text(v) if v is not None else "param"}',
+    from fsa.pathsens import TOP, UNDEF
+    from fsa.match import nnf_atoms
+    by_member = {}
+    unknown_states = []
+    for s in fl.states_at(fs.id):
+        for tok in fl.vals(sval, s):
+            if tok == TOP:
+                unknown_states.append(s)
+                continue
+            if tok == UNDEF:
+                continue  # definite assignment is R7
+            m = sh.status_member(tok)
+            by_member.setdefault(m if m is not None else ('?', tok), set()).add((fs.id, s))
+    if unknown_states:
+        # not a flag: look at the reaching definitions for one that is positively not a status member
+        if not isinstance(sval, ast.Name):
+            raise Unsupported(f'{sh.q}: final status store value `{text(sval)}` is not decided by the flag analysis')
+        for (site, v) in sh.lf.values_reaching(fs.id, sval.id):
+            node = sh.cfg.nodes[site] if site != PARAM else None
+            if v is not None and fl._flag_value(v):
+                continue
+            if v is None or isinstance(v, (ast.Call, ast.Subscript, ast.Attribute, ast.Name)):
+                raise Unsupported(f'{sh.q}: `{sval.id}` is bound to `{text(v) if v is not None else "<parameter>"}`: not a value the flag analysis can follow')
+            R.violation(sh.q, f'status-def:{text(v)}',
                         f'a definition of `{sval.id}` reaching the final store is not `SolutionStatus.<member>.value`: `{text(v)}`',
                         where=sh.where(node) if node else '')
-            continue
-        members.setdefault(m, []).append(node)
+        raise Unsupported(f'{sh.q}: `{sval.id}` is not a flag (bound by a loop, unpacking or augmented assignment)')
+    members = {k: v for k, v in by_member.items() if isinstance(k, str)}
+    for k, tg in by_member.items():
+        if not isinstance(k, str):
+            R.violation(sh.q, f'status-def:{k[1][2]!r}', f'the final store can receive `{k[1][2]!r}`, which is not the value of a SolutionStatus member', where=sh.where(fs))
     if 'UNSOLVED' in members:
-        n = members['UNSOLVED'][0]
-        p = sh.cfg.some_path(n.id, fs.id)
+        tgt = sorted(members['UNSOLVED'], key=repr)[0]
+        p = fl.some_path(tgt)
         R.violation(sh.q, 'status-unsolved-reaches-final',
                     "the initial status '-' can reach the final store: some loop exit sets no status",
-                    where=sh.where(n), path=sh.cfg.describe_path(p) if p else None)
+                    where=sh.where(fs), path=sh.cfg.describe_path(p) if p else None)
     else:
         R.ok(sh.q, "the initial status '-' never reaches the final store (every loop exit sets a status)")
     allowed = {'SOLVED', 'FAILED', 'SKIPPED'} if not linker else {'SOLVED', 'FAILED'}
-    for m, nodes in members.items():
+    lastpass_tests = []
+    skip_tests = []
+    for tn in sh.tests():
+        for (a, truth) in nnf_atoms(tn.ast, True):
+            c = cmp_of(a)
+            if sh.in_loop(tn) and c is not None and truth and c == Cmp('==', affine(expr(f'{sh.counter} - max_iter'))):
+                lastpass_tests.append(tn)
+            se = str_eq_test(a)
+            if se and se[0] == 'errors' and se[1] == 'skip' and se[2] == truth:
+                skip_tests.append(tn)
+    for m, tg in sorted(members.items()):
         if m == 'UNSOLVED':
             continue
         if m not in allowed:
-            R.violation(sh.q, f'status-member:{m}', f'status {m} stored by the final store is outside {sorted(allowed)}',
-                        where=sh.where(nodes[0]))
+            R.violation(sh.q, f'status-member:{m}', f'status {m} stored by the final store is outside {sorted(allowed)}', where=sh.where(fs))
             continue
-        for n in nodes:
-            g = sh.guards_of(n.id)
-            if m == 'SOLVED':
-                ok = (conv.id, 'T') in g
-                R.check(ok, sh.q, f'status-row:SOLVED:{stmt_key(n.ast)}', "'.' is assigned only under the convergence test",
-                        "status '.' is assigned outside the true branch of the convergence test", where=sh.where(n), path=sh.path_to(n))
-            elif m == 'FAILED':
-                exhausted = (sh.loop.id, 'exhausted') in g
-                lastpass = False
-                for (a, truth, tn) in guard_atoms(sh, n.id):
-                    c = cmp_of(a)
-                    if c is not None and truth and c == Cmp('==', affine(expr(f'{sh.counter} - max_iter'))):
-                        lastpass = True
-                R.check(exhausted or lastpass, sh.q, f'status-row:FAILED:{stmt_key(n.ast)}@{"else" if exhausted else "body"}',
-                        "'F' is assigned only when the pass budget is exhausted (for-else or iteration == max_iter)",
-                        "status 'F' is assigned on a path where the pass budget is not exhausted",
-                        where=sh.where(n), path=sh.path_to(n))
-            elif m == 'SKIPPED':
-                R.check(mode_chain(sh, n.id, 'errors') == 'skip', sh.q, f'status-row:SKIPPED:{stmt_key(n.ast)}',
-                        "'S' is assigned only under errors == 'skip'", "status 'S' is assigned outside errors == 'skip'",
-                        where=sh.where(n))
+        if m == 'SOLVED':
+            ok = fl.last_test(tg, conv.id, 'T')
+            p = None
+            if not ok:
+                p = fl.some_path(sorted(tg, key=repr)[0], avoid_nodes=[conv.id]) or next(
+                    (fl.some_path(t_, skip_edges=[(conv.id, 'T')]) for t_ in sorted(tg, key=repr) if fl.some_path(t_, skip_edges=[(conv.id, 'T')])), None)
+            R.check(ok, sh.q, 'status-row:SOLVED', "'.' reaches the final store only when the last convergence test succeeded",
+                    "status '.' is assigned outside the true branch of the convergence test", where=sh.where(fs),
+                    path=sh.cfg.describe_path(p) if p else None)
+        elif m == 'FAILED':
+            edges = [(sh.loop.id, 'exhausted')] + [(tn.id, 'T') for tn in lastpass_tests]
+            ok = fl.must_take(tg, edges)
+            p = None
+            if not ok:
+                p = next((fl.some_path(t_, skip_edges=edges) for t_ in sorted(tg, key=repr) if fl.some_path(t_, skip_edges=edges)), None)
+            R.check(ok, sh.q, 'status-row:FAILED' + ('@body' if lastpass_tests else '@else'),
+                    "'F' reaches the final store only when the pass budget is exhausted (for-else or iteration == max_iter)",
+                    "status 'F' is assigned on a path where the pass budget is not exhausted",
+                    where=sh.where(fs), path=sh.cfg.describe_path(p) if p else None)
+        elif m == 'SKIPPED':
+            ok = bool(skip_tests) and fl.must_take(tg, [(tn.id, 'T') for tn in skip_tests])
+            R.check(ok, sh.q, 'status-row:SKIPPED', "'S' is assigned only under errors == 'skip'", "status 'S' is assigned outside errors == 'skip'",
+                    where=sh.where(fs))
     R.check('SOLVED' in members and 'FAILED' in members, sh.q, 'status-rows-present',
-            "both '.' and 'F' definitions reach the final store",
+            "both '.' and 'F' can reach the final store",
             f'final status store is reached only by {sorted(members)}', where=sh.where(fs))
     # (d) iterations value is the pass counter; zero-trip value is 0
     ival = fi_.ast.value
@@ -354,18 +384,35 @@ def r6_exit_table(R, sh: SolverShape, linker: bool = False) -> None:
             R.check(v is not None and is_const(v, 0), sh.q, f'counter-init:{text(v)}',
                     'pass counter starts at 0 (zero-trip loop records max_iter = 0 passes)',
                     f'pass counter initialised to `{text(v)}`, expected 0', where=sh.where(sh.cfg.nodes[site]))
-    # (e) return expression
+    # (e) return expression: true exactly in the states where the stored status is '.'
     rets = [n for n in sh.cfg.nodes if n.kind == 'stmt' and isinstance(n.ast, ast.Return)]
     for r in rets:
         v = r.ast.value
-        ok = False
-        if isinstance(v, ast.Compare) and len(v.ops) == 1 and isinstance(v.ops[0], ast.Eq):
-            l, rr = v.left, v.comparators[0]
-            for x, y in ((l, rr), (rr, l)):
-                if isinstance(x, ast.Name) and x.id == sval.id and enum_value_ref(y) == 'SOLVED':
-                    ok = True
-        R.check(ok, sh.q, 'return:' + text(v), "returns True exactly for status '.'",
-                f'return expression `{text(v)}` is not `status == SolutionStatus.SOLVED.value`', where=sh.where(r))
+        bad = None
+        undecided = False
+        for s in fl.states_at(r.id):
+            stored = {sh.status_member(t_) for t_ in fl.vals(sval, s) if t_ not in (TOP, UNDEF)}
+            if len(stored) != 1:
+                undecided = True
+                continue
+            res = fl.ev(v, s) if v is not None else False
+            if res is None:
+                undecided = True
+            elif res != (stored == {'SOLVED'}):
+                bad = (s, stored, res)
+        if bad is None and undecided:
+            # not decided by the flags: accept the literal comparison only
+            ok = False
+            if isinstance(v, ast.Compare) and len(v.ops) == 1 and isinstance(v.ops[0], ast.Eq) and isinstance(sval, ast.Name):
+                l, rr = v.left, v.comparators[0]
+                for x, y in ((l, rr), (rr, l)):
+                    if isinstance(x, ast.Name) and x.id == sval.id and enum_value_ref(y) == 'SOLVED':
+                        ok = True
+            if not ok:
+                raise Unsupported(f'{sh.q}: return expression `{text(v)}` is not decided by the flag analysis')
+        R.check(bad is None, sh.q, 'return:' + text(v), "returns True exactly for status '.'",
+                f'return expression `{text(v)}` is not `status == SolutionStatus.SOLVED.value`'
+                + (f': it is {bad[2]} when the stored status is {sorted(bad[1])} ({fl.show(bad[0])})' if bad else ''), where=sh.where(r))
         R.check(fs.id in sh.dom[r.id] and fi_.id in sh.dom[r.id], sh.q, 'return-after-stores',
                 'the return is dominated by the final stores', 'a return bypasses the final stores', where=sh.where(r))
     R.require(sh.q, len(rets), 'return of the solved flag', fi=sh.fi, pred=lambda n: isinstance(n, ast.Return))
@@ -373,25 +420,25 @@ def r6_exit_table(R, sh: SolverShape, linker: bool = False) -> None:
     ncs = sh.raises('NonConvergenceError')
     if R.require(sh.q, len(ncs), 'raise NonConvergenceError', fi=sh.fi, pred=pred_raise('NonConvergenceError')):
         n = ncs[0]
-        atoms = [(a, t) for (a, t, tn) in guard_atoms(sh, n.id) if not sh.in_loop(tn) and sh.loop.id in sh.dom[tn.id]]
-        has_failed = has_raise = False
+        atoms = [(a, t, tn) for (a, t, tn) in guard_atoms(sh, n.id) if not sh.in_loop(tn) and sh.loop.id in sh.dom[tn.id]]
+        here = {sh.status_member(t_) if t_ not in (TOP, UNDEF) else None for s in fl.states_at(n.id) for t_ in fl.vals(sval, s)}
+        has_failed = here == {'FAILED'}
+        has_raise = False
         extra = []
-        for (a, truth) in atoms:
+        for (a, truth, tn) in atoms:
             se = str_eq_test(a)
-            if truth and se and se[0] == 'failures' and se[1] == 'raise' and se[2]:
+            if se and se[0] == 'failures' and se[1] == 'raise' and se[2] == truth:
                 has_raise = True
                 continue
-            if truth and isinstance(a, ast.Compare) and len(a.ops) == 1 and isinstance(a.ops[0], ast.Eq):
-                l, rr = a.left, a.comparators[0]
-                if any(isinstance(x, ast.Name) and x.id == sval.id and enum_value_ref(y) == 'FAILED'
-                       for x, y in ((l, rr), (rr, l))):
-                    has_failed = True
-                    continue
+            # any other condition must not exclude a failed state
+            fs_states = [s for s in fl.states_at(tn.id) if {sh.status_member(t_) if t_ not in (TOP, UNDEF) else None for t_ in fl.vals(sval, s)} == {'FAILED'}]
+            if fs_states and all(fl.ev(a, s) is truth for s in fs_states):
+                continue
             extra.append(text(a))
         R.check(has_failed and has_raise and not extra, sh.q, 'nonconvergence-guard',
                 "NonConvergenceError is raised exactly when status is 'F' and failures == 'raise'",
                 f'NonConvergenceError guard is not exactly (status == FAILED and failures == "raise"): '
-                f'failed={has_failed} raise={has_raise} extra={extra}', where=sh.where(n))
+                f'status there={sorted(str(x) for x in here)} raise={has_raise} extra={extra}', where=sh.where(n))
         R.check(fs.id in sh.dom[n.id] and fi_.id in sh.dom[n.id], sh.q, 'nonconvergence-after-stores',
                 'NonConvergenceError is raised after status and iterations are recorded',
                 'NonConvergenceError can be raised before the final stores', where=sh.where(n))
